@@ -65,9 +65,32 @@ impl ConstantFoldingRule {
                             return Ok(Some(input_changed.unwrap_or(filter.input)));
                         }
                         FoldedPredicate::AlwaysFalse => {
-                            return Ok(Some(arena.alloc(LogicalOperator::Values(
-                                crate::sql::planner::LogicalValues { rows: &[] },
-                            ))));
+                            // keep the scan under a constant FALSE filter: an empty Values
+                            // operator cannot be turned into a physical plan for a SELECT
+                            if matches!(
+                                filter.predicate,
+                                crate::sql::ast::Expr::Literal(crate::sql::ast::Literal::Boolean(
+                                    false
+                                ))
+                            ) {
+                                return Ok(input_changed.map(|new_input| {
+                                    &*arena.alloc(LogicalOperator::Filter(
+                                        crate::sql::planner::LogicalFilter {
+                                            input: new_input,
+                                            predicate: filter.predicate,
+                                        },
+                                    ))
+                                }));
+                            }
+                            let new_filter = crate::sql::planner::LogicalFilter {
+                                input: input_changed.unwrap_or(filter.input),
+                                predicate: arena.alloc(crate::sql::ast::Expr::Literal(
+                                    crate::sql::ast::Literal::Boolean(false),
+                                )),
+                            };
+                            return Ok(Some(
+                                arena.alloc(LogicalOperator::Filter(new_filter)),
+                            ));
                         }
                         FoldedPredicate::Simplified(new_pred) => {
                             let new_filter = crate::sql::planner::LogicalFilter {
@@ -252,10 +275,12 @@ impl ConstantFoldingRule {
                 }
                 BinaryOperator::Eq => {
                     if let (Expr::Literal(l), Expr::Literal(r)) = (*left, *right) {
-                        Some(if literals_equal(l, r) {
-                            FoldedPredicate::AlwaysTrue
-                        } else {
-                            FoldedPredicate::AlwaysFalse
+                        literals_equal(l, r).map(|eq| {
+                            if eq {
+                                FoldedPredicate::AlwaysTrue
+                            } else {
+                                FoldedPredicate::AlwaysFalse
+                            }
                         })
                     } else {
                         None
@@ -263,10 +288,12 @@ impl ConstantFoldingRule {
                 }
                 BinaryOperator::NotEq => {
                     if let (Expr::Literal(l), Expr::Literal(r)) = (*left, *right) {
-                        Some(if literals_equal(l, r) {
-                            FoldedPredicate::AlwaysFalse
-                        } else {
-                            FoldedPredicate::AlwaysTrue
+                        literals_equal(l, r).map(|eq| {
+                            if eq {
+                                FoldedPredicate::AlwaysFalse
+                            } else {
+                                FoldedPredicate::AlwaysTrue
+                            }
                         })
                     } else {
                         None
@@ -295,15 +322,20 @@ enum FoldedPredicate<'a> {
     Simplified(crate::sql::ast::Expr<'a>),
 }
 
-fn literals_equal(l: &crate::sql::ast::Literal, r: &crate::sql::ast::Literal) -> bool {
+/// `Some(equal)` only where the comparison can be decided from the source text alone:
+/// two literals of the same kind, neither NULL.  A NULL operand makes the comparison UNKNOWN
+/// and literals of different kinds (1 = 1.0) need value comparison: both are left to the executor.
+fn literals_equal(l: &crate::sql::ast::Literal, r: &crate::sql::ast::Literal) -> Option<bool> {
     use crate::sql::ast::Literal;
     match (l, r) {
-        (Literal::Null, _) | (_, Literal::Null) => false,
-        (Literal::Boolean(a), Literal::Boolean(b)) => a == b,
-        (Literal::Integer(a), Literal::Integer(b)) => a == b,
-        (Literal::Float(a), Literal::Float(b)) => a == b,
-        (Literal::String(a), Literal::String(b)) => a == b,
-        _ => false,
+        (Literal::Boolean(a), Literal::Boolean(b)) => Some(a == b),
+        (Literal::Integer(a), Literal::Integer(b)) => a
+            .parse::<i64>()
+            .ok()
+            .zip(b.parse::<i64>().ok())
+            .map(|(x, y)| x == y),
+        (Literal::String(a), Literal::String(b)) => Some(a == b),
+        _ => None,
     }
 }
 
